@@ -44,6 +44,8 @@ type Comp struct {
 	// errors.As) that count as "passed" when matched with errors.Is/As, e.g.
 	// "pkg/services/object/acl.ErrNotMatched".
 	Accept []string
+	// Const: for EqConst, the integer constant the result must equal.
+	Const int64
 }
 
 // Guard describes one required check.
@@ -51,6 +53,9 @@ type Guard struct {
 	Name  string
 	Match func(s Site) bool // which call sites establish this guard
 	Comps []Comp            // default: one component {Result:-1, Kind:ErrNil}
+	// Value optionally marks non-call values (e.g. the load of a flag variable that a
+	// callback sets) as results of component 0 of this guard.
+	Value func(fn *ssa.Function, v ssa.Value) bool
 }
 
 // G is a convenience constructor: callee short names + pass kind on the last result.
@@ -146,12 +151,24 @@ func Flow(fn *ssa.Function, guards []Guard, derived ...Derived) *GuardFlow {
 			}
 			s := Site{fn, c, CalleeName(c)}
 			for gi, g := range guards {
-				if g.Match(s) {
+				if g.Match != nil && g.Match(s) {
 					gf.calls[in] = append(gf.calls[in], gi)
 					gf.Sites[gi] = append(gf.Sites[gi], c)
 					if v := c.Value(); v != nil {
 						gf.bindResults(v, gi)
 					}
+				}
+			}
+		}
+	}
+	for gi, g := range guards {
+		if g.Value == nil {
+			continue
+		}
+		for _, b := range fn.Blocks {
+			for _, in := range b.Instrs {
+				if v, ok := in.(ssa.Value); ok && g.Value(fn, v) {
+					gf.results[v] = append(gf.results[v], resRef{gi, 0})
 				}
 			}
 		}
@@ -589,7 +606,10 @@ func (gf *GuardFlow) eval(v ssa.Value, r resRef, depth int) tri {
 					if c, ok := boolConst(b); ok {
 						t = boolTri(c)
 					}
-				case LenNonZero:
+				case EqConst:
+					if c, ok := intConst(b); ok && c == comp.Const {
+						t = triF // failing => a != Const => (a == Const) is false
+					}
 				}
 			} else if lenOf(a, gf, r) || lenOf(b, gf, r) {
 				if lenOf(b, gf, r) {
@@ -902,8 +922,11 @@ func CheckEffectsFn(p *Prog, h *RuleH, fn *ssa.Function, r EffectRule) int {
 // A return is a success return when its error result (last result of type error) is
 // the nil constant, or its bool result (if BoolResult>=0) is the given constant.
 type SuccessRule struct {
-	Fn     string
-	Guards []Guard
+	Fn      string
+	Guards  []Guard
+	Derived []Derived
+	// Need lists the guard / derived names required at a success return; nil = all guards.
+	Need []string
 	// ResultIdx: index of the result that signals success; -1 = last.
 	ResultIdx int
 	// SuccessBool: when the signalling result is a bool, which value means success.
@@ -920,8 +943,16 @@ func CheckSuccess(p *Prog, h *RuleH, r SuccessRule) {
 		h.r.Fatalf("%s: anchor function %s not found", h.ID(), r.Fn)
 		return
 	}
-	gf := Flow(fn, r.Guards)
+	gf := Flow(fn, r.Guards, r.Derived...)
 	nret := 0
+	need := map[string]bool{}
+	for _, n := range r.Need {
+		need[n] = true
+	}
+	ownResult := func(val ssa.Value, gi int) bool {
+		g := r.Guards[gi]
+		return len(g.Comps) == 1 && gf.isResult(val, resRef{gi, 0})
+	}
 	check := func(desc string, pos string, f factSet, val ssa.Value) {
 		// classify val
 		switch classifySuccess(val, r.SuccessBool) {
@@ -929,7 +960,32 @@ func CheckSuccess(p *Prog, h *RuleH, r SuccessRule) {
 			return // failure return
 		}
 		nret++
+		for _, d := range r.Derived {
+			if r.Need != nil && !need[d.Name] {
+				continue
+			}
+			c := fmt.Sprintf("%s#%s!%s", FuncName(fn), desc, d.Name)
+			ok := gf.DerivedPassed(f, d.Name)
+			for _, alt := range d.Alts {
+				all := true
+				for _, nm := range alt {
+					gi := gf.guardIndex(nm)
+					if gi < 0 || !(gf.Passed(f, gi) || ownResult(val, gi)) {
+						all = false
+					}
+				}
+				ok = ok || all
+			}
+			if ok {
+				h.OK(c, pos, "one alternative passed (or the returned value is that guard's own result)")
+			} else {
+				h.Bad(c, pos, fmt.Sprintf("a success return is reachable where none of the alternatives %v of %q holds; passed here: [%s]", d.Alts, d.Name, strings.Join(gf.PassedNames(f), ",")))
+			}
+		}
 		for gi, g := range r.Guards {
+			if r.Need != nil && !need[g.Name] {
+				continue
+			}
 			c := fmt.Sprintf("%s#%s!%s", FuncName(fn), desc, g.Name)
 			if gf.Passed(f, gi) {
 				h.OK(c, pos, "guard passed on every path to this success return")
